@@ -1,5 +1,5 @@
 --------------------------- MODULE Timestamp_Gen ---------------------------
 EXTENDS Timestamp, Json
 Export == phase = "done" =>
-  PrintT("BEH " \o ToJson([urls |-> urls, cache |-> cache, contacted |-> contacted, attached |-> attached, failed |-> failed]))
+  PrintT("BEH " \o ToJson([prior |-> prior, urls |-> urls, cache |-> cache, contacted |-> contacted, attached |-> attached, failed |-> failed]))
 =============================================================================
